@@ -477,7 +477,10 @@ pub fn mask_digits(s: &str) -> String {
 
 /// Scratch directory on tmpfs, unique per process, removed at exit by the driver (and by `cleanup`).
 pub fn scratch_base() -> String {
-    let base = format!("/dev/shm/kyro-verif.{}", std::process::id());
+    // the driver hands every worker a parent directory of its own (VERIF_SCRATCH), so that concurrent check runs never
+    // see -- or clean up -- each other's files
+    let parent = std::env::var("VERIF_SCRATCH").unwrap_or_else(|_| "/dev/shm".to_string());
+    let base = format!("{}/kyro-verif.{}", parent, std::process::id());
     let _b = crate::simlibc::Bypass::new();
     let _ = std::fs::create_dir_all(&base);
     base
@@ -498,5 +501,6 @@ pub fn remove_dir(d: &str) {
 
 pub fn cleanup() {
     let _b = crate::simlibc::Bypass::new();
-    let _ = std::fs::remove_dir_all(format!("/dev/shm/kyro-verif.{}", std::process::id()));
+    let parent = std::env::var("VERIF_SCRATCH").unwrap_or_else(|_| "/dev/shm".to_string());
+    let _ = std::fs::remove_dir_all(format!("{}/kyro-verif.{}", parent, std::process::id()));
 }
